@@ -686,10 +686,18 @@ pub fn run(ctx: &Ctx) -> Report {
     rep.sample(json!({"cnf": [[1, -1], [2, 3], []], "orders": "all 6", "vtrees": "all 12 + dtree-derived", "partial_models": 27}));
     rep.sample(json!({"expr": "(Ite (Var A) (Xor (Var B) (Var C)) (Not (Var B)))"}));
     rep.assumptions.push("builders are created over exactly the CNF's variables 0..max index; dtree plans/vtrees need a non-empty clause list (DTree::from_cnf precondition)".into());
+    // long formulas: 9 to 70 clauses over 6 to 10 variables (longcnf.rs)
+    if !disabled("longcnf") {
+        let w = crate::props::longcnf::bottom_up(ctx);
+        rep.merge(w);
+    }
     rep
 }
 
 pub fn replay(_ctx: &Ctx, case: &Value) -> Report {
+    if let Some(r) = crate::props::longcnf::replay(_ctx, case, false) {
+        return r;
+    }
     let mut rep = Report::default();
     let mut cn = Cn::default();
     match case["kind"].as_str() {
